@@ -25,8 +25,8 @@ for pid in sorted(CLAIMED):
         "evidence_file": f"/verif/evidence/{pid}.json",
         "replay_cmd_template": f"./check {pid} --replay {{path}}",
         "engine": "lkcheck",
-        "level_claimed": {"category": "other", "text": text, "design_ref": f"DESIGN.md section 4, {pid}"},
-        "level_note": note,
+        "level_claimed": {"category": "other", "text": text, "design_ref": f"DESIGN.md section 4 ({pid}) and section 8.2/8.8 (as built, rules added after seeded-change testing)"},
+        "level_note": note + " The exact list of clauses decided by the committed checker, including the rules added after seeded-change testing, is the coverage.explanation of the evidence file; the thorough tier additionally re-applies the self-test variants of selftest/" + pid + ".json and the stored seeded patches seeded/" + pid + "-*/patch.diff as overlays and requires the named obligations to fail.",
         "technique": tech,
     })
 
@@ -52,7 +52,7 @@ m = {
         "kind_free_text": "repository-specific static analyser (go/packages + go/ssa, x/tools v0.29.0): guard dominance, must-pass-through paths, who-may-write/call indexes, field coverage, sibling agreement, comparison-only abstract interpretation, determinism lint, error discipline, panic-sink taint, lockset",
     }],
     "checks": checks,
-    "notes": "Every check loads and type-checks /repo's current working tree on every run (no cached verdicts), decides structural necessary conditions of the property (level 'other'), prints KNOWN-FINDING lines for triaged genuine defects listed in /verif/known_findings.json and VIOLATION lines for anything else. Exit 2 = the checker itself could not run (load/type error, unresolved anchor).",
+    "notes": "quick = all obligations on the current tree; thorough = quick plus the rule self-test (overlay variants, never touches /repo, a missed variant is a note and not a verdict). Every check loads and type-checks /repo's current working tree on every run (no cached verdicts), decides structural necessary conditions of the property (level 'other'), prints KNOWN-FINDING lines for triaged genuine defects listed in /verif/known_findings.json and VIOLATION lines for anything else. Exit 2 = the checker itself could not run (load/type error, unresolved anchor).",
     "not_applicable": [{"property_id": p, "reason": NOT_APPLICABLE[p]} for p in sorted(NOT_APPLICABLE)],
 }
 json.dump(m, open(os.path.join(HERE, "MANIFEST.json"), "w"), indent=1)
